@@ -545,7 +545,7 @@ def compare(ctx: Ctx, reqs: list, pend: list, drv: Optional[Driver]) -> None:
 
 
 def family(ctx: Ctx, drv: Optional[Driver]) -> None:
-    n_schemas = ctx.pick(250, 2500)
+    n_schemas = ctx.pick(250, 1500)
     n_docs = ctx.pick(3, 6)
     built = 0
     attempts = 0
